@@ -451,6 +451,10 @@ static const char *check_parity_rule(const struct snap *cur, int pi, int hdr_tex
 				cellwise = 1;
 				for (c = 0; c < 40; c++) {
 					if (!hdr_text && t->x26_pos[row][c]) continue;
+					/* the right half of a double-width/size character belongs to the
+					   character cell at c-1: excepted when that position is X/26-addressed */
+					if (!hdr_text && c > 0 && t->x26_pos[row][c - 1]
+					    && (x[c].size == VBI_OVER_TOP || x[c].size == VBI_OVER_BOTTOM)) continue;
 					if (x[c].unicode == y0[c].unicode && x[c].size == y0[c].size) continue;
 					if (x[c].unicode == y1[c].unicode && x[c].size == y1[c].size) continue;
 					if (uc_is_blank(x[c].unicode) && !prev_good) continue;
